@@ -76,6 +76,8 @@ fn body(run: &Run, replay: Option<&Value>) {
     eprintln!("[c14] round trips done at {:.1}s", run.elapsed());
     codec_decoder(run);
     eprintln!("[c14] decoder done at {:.1}s", run.elapsed());
+    codec_trees(run);
+    eprintln!("[c14] decoder tree family done at {:.1}s", run.elapsed());
     codec_huge(run);
     eprintln!("[c14] huge decoder cases done at {:.1}s", run.elapsed());
 }
@@ -537,6 +539,92 @@ fn codec_decoder(run: &Run) {
 }
 
 
+/// Decoder against the spec-text decoder on streams built node by node: every sequence of <= N nodes
+/// over `codec::node_alphabet(bf)` x branch factor x height in {1, 2, 3, max-1, max, max+1} x 3
+/// trailing-byte variants x the (bias, max) pairs. Sequences shorter than the tree demands are
+/// truncated streams (both must reject), longer ones leave a remainder (must match).
+fn codec_trees(run: &Run) {
+    let max_nodes = run.tier.pick(4usize, 5usize);
+    let trailers: [&[u8]; 3] = [&[], &[0xff], &[0x00, 0x01]];
+    let mut jobs: Vec<(u32, u32)> = vec![];
+    for bf in [2u32, 4, 8, 32] {
+        let mh = codec::max_height(bf);
+        for h in [1, 2, 3, mh - 1, mh, mh + 1] {
+            jobs.push((bf, h));
+        }
+    }
+    let alpha_desc: Vec<Value> = [2u32, 4, 8, 32].iter().map(|bf| json!({"bf": bf, "nodes": codec::node_alphabet(*bf).iter().map(|n| format!("{n:x}")).collect::<Vec<_>>()})).collect();
+    run.bound(
+        "codec.decoder.trees",
+        json!({"max_nodes": max_nodes, "heights": "1, 2, 3, max-1, max, max+1 per branch factor", "trailing_bytes": ["", "ff", "0001"],
+               "node_alphabet": alpha_desc,
+               "bias_max_pairs": BIAS_MAX.len()}),
+    );
+    let counts = [AtomicU64::new(0), AtomicU64::new(0), AtomicU64::new(0), AtomicU64::new(0), AtomicU64::new(0)];
+    let all: Mutex<HashSet<u64>> = Mutex::new(HashSet::new());
+    let non: Mutex<HashSet<u64>> = Mutex::new(HashSet::new());
+    jobs.par_iter().for_each(|(bf, h)| {
+        let alpha = codec::node_alphabet(*bf);
+        let (mut la, mut ln) = (HashSet::new(), HashSet::new());
+        for len in 0..=max_nodes {
+            let total = (alpha.len() as u64).pow(len as u32);
+            for c in 0..total {
+                let mut x = c;
+                let nodes: Vec<u32> = (0..len)
+                    .map(|_| {
+                        let n = alpha[(x % alpha.len() as u64) as usize];
+                        x /= alpha.len() as u64;
+                        n
+                    })
+                    .collect();
+                let base = codec::pack_nodes(*bf, *h, &nodes);
+                for t in trailers {
+                    let mut data = base.clone();
+                    data.extend_from_slice(t);
+                    for (bias, max) in BIAS_MAX {
+                        match codec::decode_case(&data, bias, max) {
+                            Ok((o, d)) => {
+                                let slot = match o {
+                                    codec::DecodeOutcome::Compared { ok_result: true, members } => {
+                                        la.insert(d);
+                                        if members > 0 {
+                                            ln.insert(d);
+                                        }
+                                        0
+                                    }
+                                    codec::DecodeOutcome::Compared { ok_result: false, .. } => 1,
+                                    codec::DecodeOutcome::UnsupportedHeight => 2,
+                                    codec::DecodeOutcome::SkippedLarge => 3,
+                                };
+                                counts[slot].fetch_add(1, Ordering::Relaxed);
+                            }
+                            Err((label, details)) => run.violation(
+                                &format!("sparse bit set: {label} (BF{bf} node stream)"),
+                                &format!("bytes {} (BF{bf} H{h} nodes {:x?}) bias {} max {}: {}", hex(&data), nodes, bias, max, details),
+                                json!({"kind":"codec_decode","family":"trees","bf":bf,"bytes":hex(&data),"bias":bias,"max":max}),
+                            ),
+                        }
+                        counts[4].fetch_add(1, Ordering::Relaxed);
+                    }
+                }
+            }
+        }
+        all.lock().unwrap().extend(la);
+        non.lock().unwrap().extend(ln);
+    });
+    let n = counts[4].load(Ordering::Relaxed);
+    run.evals(n);
+    run.trans(n);
+    run.count("codec.decoder.trees.cases", n);
+    run.count("codec.decoder.trees.both_decode_and_agree", counts[0].load(Ordering::Relaxed));
+    run.count("codec.decoder.trees.both_reject", counts[1].load(Ordering::Relaxed));
+    run.count("codec.decoder.trees.unsupported_height_no_panic_only", counts[2].load(Ordering::Relaxed));
+    run.count("codec.decoder.trees.skipped_population_above_2^16", counts[3].load(Ordering::Relaxed));
+    let (a, nn) = (all.into_inner().unwrap(), non.into_inner().unwrap());
+    run.count("codec.decoder.trees.distinct_results", a.len() as u64);
+    run.observe_many(&a, &nn);
+}
+
 // ---------------------------------------------------------------------------
 // decoder: the cases the sweep skips because the result is huge ("decoding arbitrary bytes never
 // panics": does it return, and what does it cost?). Each case runs in a worker subprocess with a CPU
@@ -685,7 +773,11 @@ fn replay_case(run: &Run, case: &Value) {
             let max = case["max"].as_u64().unwrap_or(0) as u32;
             match codec::decode_case(&data, bias, max) {
                 Ok(o) => println!("replay: {:?}", o),
-                Err((label, details)) => run.violation(&format!("sparse bit set: {label}"), &details, case.clone()),
+                Err((label, details)) => {
+                    // same identity as the family that produced the case
+                    let suffix = if case["family"].as_str() == Some("trees") { format!(" (BF{} node stream)", case["bf"].as_u64().unwrap_or(0)) } else { String::new() };
+                    run.violation(&format!("sparse bit set: {label}{suffix}"), &details, case.clone())
+                }
             }
         }
         "codec_huge" => codec_huge(run),
